@@ -1611,46 +1611,46 @@ _EQ_FLOORS = {
                      'stable:text-layout:multi': 5300, 'stable:text-layout:multi:one-record': 1500,
                      'stable:text-layout:single:one-record': 1900}},
     'thorough': {
-        'monitors': {'M.eq': 1300000, 'M.eq.cmp': 11000000, 'M.eq.full': 510000, 'M.eq.two-parses': 390000, 'M.one':
-                     4000, 'M.stable': 280000, 'M.stable.one-record': 340000, 'M.stable.redump-with-one-record-field':
-                     210000},
-        'counters': {'build:bare-record-value': 28000, 'build:bare-record-value:BuildInfo': 2600,
-                     'build:bare-record-value:Changes': 2600, 'build:bare-record-value:Dsc': 2700,
-                     'build:bare-record-value:PdiffIndex': 15000, 'build:bare-record-value:Release-apt-ftparchive':
-                     2600, 'build:bare-record-value:Release-dak': 2600, 'eq:differs-in:first-column': 170000,
-                     'eq:differs-in:last-column': 160000, 'eq:differs-in:middle-column': 7100, 'eq:differs-in:size':
-                     170000, 'eq:field-value:bare-record:reversed-key-order:dicts==value': 23000,
+        'monitors': {'M.eq': 1200000, 'M.eq.cmp': 10000000, 'M.eq.full': 500000, 'M.eq.two-parses': 380000, 'M.one':
+                     4000, 'M.stable': 140000, 'M.stable.one-record': 170000, 'M.stable.redump-with-one-record-field':
+                     100000},
+        'counters': {'build:bare-record-value': 27000, 'build:bare-record-value:BuildInfo': 2500,
+                     'build:bare-record-value:Changes': 2500, 'build:bare-record-value:Dsc': 2500,
+                     'build:bare-record-value:PdiffIndex': 14000, 'build:bare-record-value:Release-apt-ftparchive':
+                     2500, 'build:bare-record-value:Release-dak': 2500, 'eq:differs-in:first-column': 160000,
+                     'eq:differs-in:last-column': 150000, 'eq:differs-in:middle-column': 6900, 'eq:differs-in:size':
+                     160000, 'eq:field-value:bare-record:reversed-key-order:dicts==value': 23000,
                      'eq:field-value:bare-record:reversed-key-order:value==dicts': 23000,
                      'eq:field-value:bare-record:shuffled-key-order:dicts==value': 23000,
                      'eq:field-value:bare-record:shuffled-key-order:value==dicts': 23000,
-                     'eq:field-value:list:reversed-key-order:dicts==value': 300000,
-                     'eq:field-value:list:reversed-key-order:value==dicts': 300000,
-                     'eq:field-value:list:shuffled-key-order:dicts==value': 300000,
-                     'eq:field-value:list:shuffled-key-order:value==dicts': 300000, 'eq:list:differing-dict-not-in':
-                     230000, 'eq:list:differs-in-one-sub-field-of-one-record': 230000, 'eq:list:in+index': 470000,
+                     'eq:field-value:list:reversed-key-order:dicts==value': 290000,
+                     'eq:field-value:list:reversed-key-order:value==dicts': 290000,
+                     'eq:field-value:list:shuffled-key-order:dicts==value': 290000,
+                     'eq:field-value:list:shuffled-key-order:value==dicts': 290000, 'eq:list:differing-dict-not-in':
+                     220000, 'eq:list:differs-in-one-sub-field-of-one-record': 220000, 'eq:list:in+index': 450000,
                      'eq:other-case-names:probed': 120000, 'eq:record:against-Deb822Dict-from-reversed-pairs': 120000,
-                     'eq:record:column-key-order': 510000, 'eq:record:columns:2': 25000, 'eq:record:columns:3':
-                     470000, 'eq:record:columns:5': 17000, 'eq:record:reversed-key-order': 510000,
-                     'eq:record:shuffled-key-order': 510000, 'eq:stage:parsed': 300000,
-                     'eq:stage:reparsed-dump-of-built-object': 520000, 'eq:stage:reparsed-dump-of-parsed-object':
-                     480000, 'eq:two-parses:dumped-text-twice': 83000, 'eq:two-parses:same-text-twice': 31000,
+                     'eq:record:column-key-order': 330000, 'eq:record:columns:2': 24000, 'eq:record:columns:3':
+                     450000, 'eq:record:columns:5': 17000, 'eq:record:reversed-key-order': 330000,
+                     'eq:record:shuffled-key-order': 330000, 'eq:stage:parsed': 290000,
+                     'eq:stage:reparsed-dump-of-built-object': 510000, 'eq:stage:reparsed-dump-of-parsed-object':
+                     470000, 'eq:two-parses:dumped-text-twice': 81000, 'eq:two-parses:same-text-twice': 31000,
                      'eq:two-parses:text-and-its-dump': 270000, 'one:case': 4000,
-                     'stable:built-as:bare-record:one-record': 28000, 'stable:built-as:list': 400000,
-                     'stable:built-as:list:one-record': 100000, 'stable:built:BuildInfo:bare-record': 2600,
-                     'stable:built:BuildInfo:list': 8600, 'stable:built:Changes:bare-record': 2600,
-                     'stable:built:Changes:list': 8800, 'stable:built:Dsc:bare-record': 2700, 'stable:built:Dsc:list':
-                     8600, 'stable:built:PdiffIndex:bare-record': 15000, 'stable:built:PdiffIndex:list': 60000,
-                     'stable:built:Release-apt-ftparchive:bare-record': 2600,
-                     'stable:built:Release-apt-ftparchive:list': 8600, 'stable:built:Release-dak:bare-record': 2600,
-                     'stable:built:Release-dak:list': 8500, 'stable:parsed:BuildInfo:bare-record': 8800,
-                     'stable:parsed:BuildInfo:list': 8300, 'stable:parsed:Changes:bare-record': 9100,
-                     'stable:parsed:Changes:list': 8500, 'stable:parsed:Dsc:bare-record': 8700,
-                     'stable:parsed:Dsc:list': 8300, 'stable:parsed:PdiffIndex:bare-record': 71000,
-                     'stable:parsed:PdiffIndex:list': 50000, 'stable:parsed:Release-apt-ftparchive:bare-record': 8700,
-                     'stable:parsed:Release-apt-ftparchive:list': 8200, 'stable:parsed:Release-dak:bare-record': 8900,
-                     'stable:parsed:Release-dak:list': 8200, 'stable:text-layout:mixed': 150000,
-                     'stable:text-layout:multi': 340000, 'stable:text-layout:multi:one-record': 92000,
-                     'stable:text-layout:single:one-record': 110000}},
+                     'stable:built-as:bare-record:one-record': 15000, 'stable:built-as:list': 190000,
+                     'stable:built-as:list:one-record': 52000, 'stable:built:BuildInfo:bare-record': 1300,
+                     'stable:built:BuildInfo:list': 4200, 'stable:built:Changes:bare-record': 1400,
+                     'stable:built:Changes:list': 4300, 'stable:built:Dsc:bare-record': 1300, 'stable:built:Dsc:list':
+                     4300, 'stable:built:PdiffIndex:bare-record': 8300, 'stable:built:PdiffIndex:list': 30000,
+                     'stable:built:Release-apt-ftparchive:bare-record': 1400,
+                     'stable:built:Release-apt-ftparchive:list': 4200, 'stable:built:Release-dak:bare-record': 1300,
+                     'stable:built:Release-dak:list': 4200, 'stable:parsed:BuildInfo:bare-record': 4400,
+                     'stable:parsed:BuildInfo:list': 4100, 'stable:parsed:Changes:bare-record': 4600,
+                     'stable:parsed:Changes:list': 4200, 'stable:parsed:Dsc:bare-record': 4400,
+                     'stable:parsed:Dsc:list': 4100, 'stable:parsed:PdiffIndex:bare-record': 36000,
+                     'stable:parsed:PdiffIndex:list': 25000, 'stable:parsed:Release-apt-ftparchive:bare-record': 4400,
+                     'stable:parsed:Release-apt-ftparchive:list': 4100, 'stable:parsed:Release-dak:bare-record': 4300,
+                     'stable:parsed:Release-dak:list': 4000, 'stable:text-layout:mixed': 76000,
+                     'stable:text-layout:multi': 160000, 'stable:text-layout:multi:one-record': 46000,
+                     'stable:text-layout:single:one-record': 58000}},
 }
 for _tier in ('quick', 'thorough'):
     FLOORS[_tier]['counters'].update(_EQ_FLOORS[_tier]['counters'])
@@ -1675,7 +1675,7 @@ _REMEASURED = {
                           'inv:pos-input:start:signed': 50, 'route:step:grow:get.extend-gen': 28,
                           'route:step:grow:held.extend-gen': 45, 'route:step:grow:setdefault.extend': 100},
               'monitors': {}},
-    'thorough': {'counters': {}, 'monitors': {}},
+    'thorough': {'counters': {'inv:char-input:U+2064:signed': 140}, 'monitors': {}},
 }
 for _tier in ('quick', 'thorough'):
     for _kind in ('counters', 'monitors'):
